@@ -77,7 +77,10 @@ def chk_carriers(case, note):
         body = (head << 13) | code
         if n == 112:
             body = (body << 56) | tail
-        msg = frames.tohex(frames.raw(df, body, n, addr), n, hc)
+        v = frames.raw(df, body, n, addr)
+        if (head ^ code) & 6 == 0 and hc != "M":   # the address chosen so that the AP digits are the same as six digits of the data part
+            v = frames.raw_ap_repeats(df, body, n, head >> 3)
+        msg = frames.tohex(v, n, hc)
         fns = [("common.altcode", pms.common.altcode)]
         if df == 4:
             fns.append(("surv.altitude", pms.surv.altitude))
